@@ -187,7 +187,7 @@ reg(
     quick={"shards": 16, "timeout_s": 3000, "max_n": 6, "max_thin": 3, "chains": [1, 2], "exhaustive": True,
            "targets": ["cont_mh", "cont_composite", "cont_inner_scan", "vec_hmc", "disc_mh"],
            "required_classes": ["C18.target_cont_mh", "C18.target_cont_composite", "C18.target_cont_inner_scan", "C18.target_vec_hmc", "C18.target_disc_mh", "C18.chains_1", "C18.chains_2", "C18.full_runs_checked"]},
-    thorough={"shards": 16, "timeout_s": 3 * 3600, "max_n": 12, "max_thin": 4, "chains": [1, 2, 3], "exhaustive": True,
+    thorough={"shards": 16, "timeout_s": 3 * 3600, "max_n": 8, "max_thin": 4, "chains": [1, 2, 3], "exhaustive": True,
               "targets": ["cont_mh", "cont_mala", "cont_hmc", "cont_composite", "cont_inner_scan", "vec_mala", "vec_hmc", "disc_mh"],
               "required_classes": ["C18.target_cont_mh", "C18.chains_1", "C18.chains_3"]},
     exhaustive=True,
